@@ -366,19 +366,36 @@ def r4_check_before_use(a, tier):
     )
     fn = a.p.func('tatsu.peg.base.Grammar.initialize')
 
-    def flagger(ex, f, call, state):
-        nm = dotted(call.func)
-        if f is fn and nm == 'self.missing_rules':
-            return ('checked',)
-        if f is fn and nm in ('self._calc_lookahead_sets', 'self._mark_left_recursion', 'self._calc_first_sets', 'self._calc_follow_sets') \
-                and 'checked' not in state:
-            return ('analysis_before_check',)
-        return ()
+    analyses = ('_calc_lookahead_sets', '_mark_left_recursion', '_calc_first_sets', '_calc_follow_sets')
 
-    outs = run_flags(a, fn, flagger)
+    class Sem(Semantics):
+        """state = flags; the analyses are private helpers of initialize() that the executor runs in place: entering one is seen at its statements"""
+
+        def _mark(self, state):
+            return frozenset(state | {'analysis_before_check' if 'checked' not in state else 'analysis_after_check'})
+
+        def stmt(self, ex, f, node, state):
+            if getattr(f, '_specialised_from', f).name in analyses:
+                return self._mark(state)
+            return state
+
+        def call(self, ex, f, node, state):
+            nm = dotted(node.func)
+            if nm == 'self.missing_rules' and ex.in_extent(f):  # in initialize() itself or in a private helper that exists only for it
+                state = frozenset(state | {'checked'})
+            elif f is fn and nm in tuple(f'self.{x}' for x in analyses):
+                state = self._mark(state)
+            return ex.default_call(f, node, state)
+
+        def tracked(self, ex, f, node):
+            return dotted(node.func) == 'self.missing_rules'
+    outs = Executor(a.p, a.ct, a.resolver, Sem(), raises=a.raises).run(fn, frozenset())
     bad = any('analysis_before_check' in o.state for o in outs)
-    raises_ge = any(isinstance(n, ast.Raise) and n.exc is not None and 'GrammarError' in norm(n.exc) for n in walk_no_defs(fn.node))
-    rep.add({'fn': fn.qualname, 'check_dominates_analyses': not bad, 'raises_GrammarError': raises_ge})
+    raises_ge = any(isinstance(n, ast.Raise) and n.exc is not None and 'GrammarError' in norm(n.exc) for f_ in a.extents.of(fn) for n in walk_no_defs(f_.node))
+    saw_analysis = any(('analysis_after_check' in o.state or 'analysis_before_check' in o.state) for o in outs)
+    rep.add({'fn': fn.qualname, 'check_dominates_analyses': not bad, 'raises_GrammarError': raises_ge, 'analyses_seen_on_some_path': saw_analysis})
+    if not saw_analysis:
+        raise AnalysisError('C08.R4: no path through Grammar.initialize reaches the first/follow or left-recursion analyses any more (the rule would pass vacuously)')
     if bad:
         rep.fail(fn.qualname, 'analysis-before-check', 'the first/follow and left-recursion analyses run before the unknown-rule check: '
                  'a grammar that calls an undefined rule (e.g. inside {...}+) makes the analysis raise KeyError instead of GrammarError', fn.loc)
